@@ -2,7 +2,8 @@
 and survives.
 
 Runtime monitoring of the real WBEMListener over loopback: crafted HTTP/1.0
-and HTTP/1.1 requests written on raw sockets (sending side half-closed), a
+and HTTP/1.1 requests written on raw sockets (sending side half-closed, or -
+for the senders that stall - left open with the request incomplete), a
 strict response-grammar parser, lxml well-formedness + DSP0203 DTD validation
 of every 200 body, a recording replacement of the server's handle_error(),
 the callback log, and a follow-up valid indication after every history.
@@ -22,6 +23,10 @@ import pywbem
 from pywbem import WBEMListener, CIMProperty
 
 WATCHDOG_S = float(os.environ.get('VF_C17_WATCHDOG_S', '60'))
+# stop() with a stalled sender still connected (histories of < 1 s)
+HANG_WATCHDOG_S = float(os.environ.get('VF_C17_HANG_WATCHDOG_S', '8'))
+ATTEMPTS = 3
+STALLED = 'stalled-sender'
 
 META = dict(
     id='C17',
@@ -33,9 +38,15 @@ META = dict(
     level_text='Seeded histories of 2-9 crafted requests (every HTTP method, '
                'header sets with missing/duplicated/folded/oversized/'
                'non-ASCII values, every Content-Length anomaly, valid and '
-               'structurally mutated ExportIndication bodies) sent '
+               'structurally mutated ExportIndication bodies incl. repeated '
+               'parameters in every position and version attributes with '
+               'leading/trailing garbage, extra components and non-ASCII '
+               'digits) sent '
                'sequentially or from 4 concurrent clients to a fresh '
-               'listener; every byte that comes back is parsed with a strict '
+               'listener, in 1 of 8 histories next to senders that stall '
+               '(partial body, partial headers, no bytes, half-closed) and '
+               'complete their request only after the follow-up or are still '
+               'connected when stop() is called; every byte that comes back is parsed with a strict '
                'grammar and judged against the set of response kinds the '
                'statement allows for that request; each history ends with a '
                'valid indication that must be accepted and delivered once. '
@@ -56,12 +67,21 @@ META = dict(
         'error responses produced by http.server itself (bad request line, '
         'unknown verb incl. M-POST -> 501, > 100 headers or a 64 KiB header '
         'line -> 431) are accepted as plain HTTP errors without CIMError',
-        'requests whose treatment the statement leaves open (duplicate '
-        'NewIndication parameter, q=0 charsets, CIMExport* header '
-        'mismatches, Content-Length anomalies that still delimit a body) '
+        'requests whose treatment the statement leaves open (q=0 charsets, '
+        'CIMExport* header mismatches, Content-Length anomalies that still '
+        'delimit a body, numeric versions with a third component such as '
+        '2.4.1, parameter names differing in lexical case only) '
         'may be answered with success or with an error; only the response '
         'grammar and delivered-iff-success are checked for them',
-        'stop() defects of C16 are tolerated here (forced clean-up)',
+        'a version attribute is unsupported unless it is <major>.<minor> '
+        'in ASCII decimal digits with the supported major number (a third '
+        'numeric component is left open); a parameter list with a repeated '
+        'name is a wrong parameter list',
+        'stop() defects of C16 are tolerated here (forced clean-up), except '
+        'that a stop() which does not return within %.0f s while a stalled '
+        'sender is connected, in %d consecutive runs of the same history, '
+        'is reported (stop.hangs.stalled-sender, the key C16 uses)'
+        % (HANG_WATCHDOG_S, ATTEMPTS),
     ],
     min_eval=1200, min_distinct=300,
     required_events=['ListenerRequestHandler.do_POST',
@@ -71,7 +91,8 @@ META = dict(
                      'ListenerRequestHandler.send_success_response',
                      'ListenerRequestHandler.invalid_method',
                      'followup-accepted', 'dtd-validated-200-body',
-                     'concurrent-history'],
+                     'concurrent-history', 'stalled-sender-connected',
+                     'stalled-request-completed-late'],
     threads=True,
 )
 
@@ -108,6 +129,7 @@ def setup_worker(ctx):
     wd = lk.Watchdog()
     wd.install()
     ctx.state['wd'] = wd
+    ctx.state['ledger'] = lk.HangLedger()
     exits = ctx.state['exits'] = []
 
     def guarded_exit(code=0):
@@ -211,6 +233,52 @@ BAD_PROTO = ['2.0', '0.1', '', 'abc', '11.0', 'x', '9.中', 'a\nb', 'a\rb',
              '9\r.9', '\r\r']
 
 
+GOOD_VERSIONS = {'cimver': ['2.0', '2.4'], 'dtdver': ['2.0', '2.4', '2.2'],
+                 'protover': ['1.0', '1.4']}
+TRAILING = ['junk', 'x', ' ', '\n', '\t', ';', '-beta', '.', '..', '.x', '+',
+            '/', ' 1', 'e1', 'x4', '\u0416', '\u0663', '\x85', '\u00a0',
+            ',0', '_0', "'", '"', '<', '&', '#']
+LEADING = ['v', ' ', '\n', '\t', 'x', '+', '-', '0x', '.', '..', '\u0416',
+           '\u00a0', '=', '~', '^', '>=']
+# the decimal digit d in other scripts (all str.isdigit(), most also \d)
+DIGIT_BASES = [0x0660, 0x06F0, 0x0966, 0xFF10, 0x1D7CE, 0x0E50]
+
+
+def other_digit(rng, d):
+    if d == '2' and rng.random() < 0.15:
+        return '\u00b2'          # superscript two: isdigit() but not \d
+    return chr(rng.choice(DIGIT_BASES) + int(d))
+
+
+def odd_version(rng, attr):
+    """(version string, label): a supported version made unsupported by
+    garbage around or inside it, or given a third numeric component."""
+    v = rng.choice(GOOD_VERSIONS[attr])
+    major, minor = v.split('.')
+    k = rng.randrange(10)
+    if k < 3:
+        return v + rng.choice(TRAILING), 'version-garbage'
+    if k < 5:
+        return rng.choice(LEADING) + v, 'version-garbage'
+    if k == 5:
+        return major + '.' + rng.choice(['', ' ', 'x', '-', '+', '.', 'x' +
+                                         minor, ' ' + minor, '-' + minor,
+                                         '+' + minor, minor + 'e1']), \
+            'version-garbage'
+    if k < 8:
+        # the same number written with non-ASCII digits
+        if rng.random() < 0.7:
+            return major + '.' + ''.join(other_digit(rng, c)
+                                         for c in minor), 'version-garbage'
+        return other_digit(rng, major) + '.' + minor, 'version-garbage'
+    if k == 8:
+        return '%s.%d' % (v, rng.choice([0, 1, 49])), \
+            'version-extra-component'
+    return '%s.%s' % (v, rng.choice(['x', '', '0.0.0.0', '-1', ' 1', 'final',
+                                     other_digit(rng, '1')])), \
+        'version-garbage'
+
+
 def identity_intact(body, iid):
     """Deliveries are attributed to requests through the identity property
     of the indication: a mutated request is only used if that property is
@@ -301,9 +369,16 @@ def gen_body(rng, req, iid):
             kw['protover'] = rng.choice(BAD_PROTO)
         req.body = envelope(param(inst_xml(iid)), **kw).encode('utf-8')
         return 'unsupported-version', {HTTPCIM}
-    if r < 0.65:
+    if r < 0.62:
+        attr = rng.choice(['cimver', 'dtdver', 'protover'])
+        v, label = odd_version(rng, attr)
+        req.body = envelope(param(inst_xml(iid)),
+                            **{attr: v}).encode('utf-8')
+        return label, {HTTPCIM} if label == 'version-garbage' \
+            else {HTTPCIM, SUCCESS}
+    if r < 0.68:
         return gen_wrong_element(rng, req, good, iid)
-    if r < 0.72:
+    if r < 0.73:
         m = rng.choice(['Foo', 'ExportIndications', 'Export', 'GetInstance',
                         'x' * 200, 'Fä', 'Ж中', 'a b', 'A&B',
                         '<m>', 'x\ny', 'x\r\nX-Vf-Injected: 1', "it's",
@@ -311,7 +386,7 @@ def gen_body(rng, req, iid):
                         '"', '\U0001f600'])
         req.body = envelope(param(inst_xml(iid)), method=m).encode('utf-8')
         return 'unknown-export-method', {CIMERR}
-    if r < 0.80:
+    if r < 0.81:
         return gen_params(rng, req, iid)
     if r < 0.84:
         # hostile attribute values in an otherwise valid message
@@ -545,14 +620,30 @@ def gen_params(rng, req, iid):
              'a\nb', 'New Indication'])))
         label = 'param-renamed'
     elif k == 2:
-        iid2 = iid + 'b'
-        req.ids = [iid, iid2]
-        body = envelope(param(ix) + param(inst_xml(iid2)))
-        label, allowed = 'param-duplicate', {CIMERR, SUCCESS}
+        # the NewIndication parameter repeated (same or different
+        # instances, same or another lexical case) at any position among
+        # 0-2 other parameters, or another parameter repeated around it
+        n = rng.choice([2, 2, 3])
+        same = rng.random() < 0.3
+        ids = [iid] * n if same else \
+            [iid] + [iid + chr(98 + j) for j in range(n - 1)]
+        names = ['NewIndication'] * n
+        if rng.random() < 0.25:
+            names[rng.randrange(1, n)] = rng.choice(
+                ['newindication', 'NEWINDICATION', 'newIndication'])
+        parts = [param(inst_xml(x), nm) for x, nm in zip(ids, names)]
+        req.ids = sorted(set(ids))
+        for j in range(rng.choice([0, 0, 1, 2])):
+            oid = '%so%d' % (iid, j)
+            req.ids.append(oid)
+            parts.insert(rng.randrange(len(parts) + 1),
+                         param(inst_xml(oid), rng.choice(['Other', 'X'])))
+        body = envelope(''.join(parts))
+        label, allowed = 'param-duplicate', {CIMERR}
     elif k == 3:
         iid2 = iid + 'b'
         req.ids = [iid, iid2]
-        other = param(inst_xml(iid2), 'Other')
+        other = param(inst_xml(iid2), 'Other') * rng.choice([1, 1, 2])
         body = envelope(param(ix) + other if rng.random() < 0.5
                         else other + param(ix))
         label = 'param-extra'
@@ -892,8 +983,12 @@ def gen_request(rng, iid, hostile):
 
 # ------------------------------------------------------------- execution ---
 
-def execute(ctx, hist, concurrent, slow_cb, state):
+def execute(ctx, hist, concurrent, slow_cb, state, stalls=()):
+    """stalls: [(Req, kind, cut, hold)] - senders that connect before the
+    history, write only part of their (valid) request and either complete
+    it after the follow-up or are still connected when stop() is called."""
     log = lk.EventLog()
+    wd = ctx.state['wd']
     state['phase'] = 'start'
     port = None
     lis = None
@@ -912,6 +1007,13 @@ def execute(ctx, hist, concurrent, slow_cb, state):
     if lis is None:
         raise RuntimeError('could not start a listener on a free port')
     rec = lk.install_error_recorder(lis)
+    state['phase'] = 'stall'
+    open_stalls = state['stalls'] = []
+    for req, kind, cut, hold in stalls:
+        ss = lk.StalledSender(port, req.raw, kind, cut)
+        if ss.connected:
+            ctx.count('stalled-sender-connected')
+        open_stalls.append((req, hold, ss))
     state['phase'] = 'send'
     results = [None] * len(hist)
 
@@ -936,6 +1038,20 @@ def execute(ctx, hist, concurrent, slow_cb, state):
     fid = 'followup'
     fraw = lk.http_request(lk.export_body(fid, msgid='f1'))
     fex = lk.send_raw(port, fraw, timeout=15.0)
+    # the slow senders complete their requests now
+    late = []
+    for req, hold, ss in open_stalls:
+        if hold != 'complete':
+            continue
+        if ss.kind == 'no-bytes':
+            ss.finish()         # never sent a request: just goes away
+            continue
+        ex = lk.Exchange()
+        ex.connected, ex.local_port = ss.connected, \
+            getattr(ss, 'local_port', None)
+        ex.raw = ss.finish(complete=True, timeout=15.0)
+        ex.error = ss.error
+        late.append((req, ex))
     # let the callback thread drain (also keeps clear of the C16 stop race)
     state['phase'] = 'drain'
     want = None
@@ -952,16 +1068,39 @@ def execute(ctx, hist, concurrent, slow_cb, state):
         time.sleep(0.01)
     time.sleep(0.02)
     alive = {t.name for t in lk.foreign_threads()}
+    held = [ss for _, hold, ss in open_stalls
+            if ss.sock is not None and ss.connected]
+    for ss in held:
+        ss.poll()
+    held = [ss for ss in held if not ss.closed_by_peer]
     state['phase'] = 'stop'
+    state['stop_hung'] = None
     stop_exc = None
+    if held:
+        ctx.count('stalled-sender-held-through-stop', len(held))
+        wd.arm(HANG_WATCHDOG_S)
     try:
         lis.stop()
+    except lk.WatchdogFired as wf:
+        if not held or '_stop_listener_threads' not in wf.in_funcs:
+            raise
+        # let the stalled senders go and stop again
+        state['stop_hung'] = wf.in_funcs[:4]
+        for ss in held:
+            ss.close()
+        wd.arm(WATCHDOG_S)
+        try:
+            lis.stop()
+        except Exception as exc:  # pylint: disable=broad-except
+            stop_exc = exc
     except Exception as exc:  # pylint: disable=broad-except
         stop_exc = exc
     state['phase'] = 'post-stop'
+    for _, _, ss in open_stalls:
+        ss.close()
     if stop_exc is not None or lk.foreign_threads():
         lk.force_cleanup(lis)
-    return log, rec, results, fex, alive, stop_exc
+    return log, rec, results, fex, alive, stop_exc, late
 
 
 # ----------------------------------------------------------------- oracle ---
@@ -1049,26 +1188,80 @@ def run_case(ctx, i, rng):
             for j, h in enumerate(kinds)]
     concurrent = rng.random() < 0.4
     slow_cb = rng.random() < 0.3
-    detail = {'history': [r.label() for r in hist], 'concurrent': concurrent}
-    state = {'phase': 'init', 'listener': None}
+    stalls = []
+    if rng.random() < 0.125:
+        for k in range(rng.choice([1, 1, 2])):
+            stalls.append((gen_request(rng, 'c%dstall%d' % (i, k), False),
+                           rng.choice(lk.StalledSender.KINDS),
+                           rng.choice([0.0, 0.3, 0.5, 0.9]),
+                           rng.choice(['through-stop', 'complete'])))
+    ledger = ctx.state['ledger']
+    if any(hold == 'through-stop' for _, _, _, hold in stalls) and \
+            ledger.known(STALLED):
+        # the hang is reported (or being confirmed) by another worker
+        stalls = [(r, k, c, 'complete') for r, k, c, _ in stalls]
+        ctx.count('ingredient-replaced-after-reported-hang:' + STALLED)
+    detail = {'history': [r.label() for r in hist], 'concurrent': concurrent,
+              'stalled_senders': [(k, c, h) for _, k, c, h in stalls]}
     exits = ctx.state['exits']
-    del exits[:]
-    wd.arm(WATCHDOG_S)
-    try:
-        log, rec, results, fex, alive, stop_exc = execute(
-            ctx, hist, concurrent, slow_cb, state)
-    except lk.WatchdogFired as wf:
-        wd.disarm()
-        if state['listener'] is not None:
-            lk.force_cleanup(state['listener'])
-        ctx.count('watchdog-fired')
-        ctx.harness_errors.append({
-            'case': i, 'traceback': 'wall-clock watchdog (%.0f s) fired in '
-            'phase %r (listener frames on the main stack: %s): inconclusive'
-            % (WATCHDOG_S, state['phase'], wf.in_funcs[:4])})
-        return
-    finally:
-        wd.disarm()
+    hung = []
+    for attempt in range(ATTEMPTS):
+        state = {'phase': 'init', 'listener': None, 'stalls': []}
+        del exits[:]
+        wd.arm(WATCHDOG_S)
+        try:
+            log, rec, results, fex, alive, stop_exc, late = execute(
+                ctx, hist, concurrent, slow_cb, state, stalls)
+        except lk.WatchdogFired as wf:
+            wd.disarm()
+            for _, _, ss in state['stalls']:
+                ss.close()
+            if state['listener'] is not None:
+                lk.force_cleanup(state['listener'])
+            for _ in hung:
+                ledger.release(STALLED)
+            ctx.count('watchdog-fired')
+            ctx.harness_errors.append({
+                'case': i, 'traceback': 'wall-clock watchdog (%.0f s) fired '
+                'in phase %r (listener frames on the main stack: %s): '
+                'inconclusive' % (WATCHDOG_S, state['phase'],
+                                  wf.in_funcs[:4])})
+            return
+        except Exception:
+            # harness fault: do not leave a running listener behind
+            wd.disarm()
+            for _, _, ss in state['stalls']:
+                ss.close()
+            if state['listener'] is not None:
+                lk.force_cleanup(state['listener'])
+            raise
+        finally:
+            wd.disarm()
+        if not state['stop_hung']:
+            break
+        hung.append(state['stop_hung'])
+        if len(hung) == 1:
+            ledger.claim(STALLED)
+    if hung:
+        ctx.count('stop-hang-observed', len(hung))
+        if len(hung) >= ATTEMPTS:
+            ledger.confirm(STALLED)
+            ctx.violation(
+                'stop.hangs.stalled-sender',
+                'stop() did not return within %.0f s in %d consecutive runs '
+                'of the same history while sender(s) %s had connected, '
+                'stalled and were still connected (main thread in %s); it '
+                'returned once they were disconnected' % (
+                    HANG_WATCHDOG_S, len(hung),
+                    sorted(set(k for _, k, _, h in stalls
+                               if h == 'through-stop')), hung[-1]), detail)
+        else:
+            ledger.release(STALLED)
+            ctx.harness_errors.append({
+                'case': i, 'traceback': 'stop() with a stalled sender did '
+                'not return within %.0f s in %d of %d runs of the same '
+                'history: inconclusive' % (HANG_WATCHDOG_S, len(hung),
+                                           len(hung) + 1)})
     if concurrent:
         ctx.count('concurrent-history')
     else:
@@ -1086,7 +1279,19 @@ def run_case(ctx, i, rng):
         if k == 'enter':
             delivered[kw['id']] = delivered.get(kw['id'], 0) + 1
     claimed = set()
-    for j, (req, ex) in enumerate(zip(hist, results)):
+    for req, _, _, hold in stalls:
+        # the indication of a request that was never completed must not
+        # show up; those completed late are judged like any other request
+        claimed.update(req.ids)
+        if hold != 'complete' and any(delivered.get(x) for x in req.ids):
+            V('delivery.of-incomplete-request',
+              'the indication of a request whose sender stalled and never '
+              'completed it was delivered', detail)
+    for req, ex in late:
+        req.labels = ['stalled-then-completed'] + req.labels
+        req.allowed = set(req.allowed) | HTTPERR
+        ctx.count('stalled-request-completed-late')
+    for j, (req, ex) in enumerate(list(zip(hist, results)) + late):
         ctx.evaluated()
         ctx.cls(req.label().split(':')[0])
         kind, resp = judge_exchange(ctx, req, ex, rec, detail)
@@ -1123,7 +1328,8 @@ def run_case(ctx, i, rng):
                         'outcome': kind})
     # ---- stray exceptions / deliveries ---------------------------------------
     ports = {ex.local_port for ex in results if ex is not None} | \
-        {fex.local_port}
+        {fex.local_port} | {ex.local_port for _, ex in late} | \
+        {getattr(ss, 'local_port', None) for _, _, ss in state['stalls']}
     for p, exc in rec.all():
         if p not in ports and not isinstance(exc, ExitAttempt):
             V('handler-exception:' + exc_key(exc),
